@@ -138,6 +138,12 @@ class TimeSeriesMixedEdgeGraph(BaseTimeSeriesGraph, pywhy_nx.MixedEdgeGraph):
         super().remove_edge(u_of_edge, v_of_edge, edge_type)  # type: ignore
 
     def remove_edges_from(self, ebunch, edge_type="all"):
+        ebunch = list(ebunch)
+        if self.stationary:
+            # check all edges first, so that a call that raises has not removed a part of the edges
+            for edge in ebunch:
+                self._check_ts_node(edge[0])
+                self._check_ts_node(edge[1])
         for edge in ebunch:
             self.remove_edge(*edge, edge_type)
 
